@@ -151,6 +151,20 @@ def run_shard(spec, res):
                         elif kk < 0.62 and nlive < 6:
                             run.step({"op": "branch", "s": other})
                             nlive = len(run.live)
+                        elif kk < 0.72 and spec["cls"] not in ("SolverVSA", "SolverConcrete"):
+                            # the other solver is used once from a worker thread (joined at once: nothing runs in
+                            # parallel), then again from this one
+                            import threading
+
+                            st_ = H.query_step(al, rng, other)
+                            th_ = threading.Thread(target=run.step, args=(st_,))
+                            th_.start()
+                            th_.join(timeout=300)
+                            res.count("steps_in_a_worker_thread")
+                            c_ = al.constraint()
+                            run.step({"op": "add", "s": other, "cons": [c_]})
+                            had_add = True
+                            run.step(H.query_step(al, rng, other))
                         else:
                             run.step(H.query_step(al, rng, other))
                     p2 = api.probe(run.live[s].solver, exprs, bools, run.b, qkw=qkw)
